@@ -243,6 +243,7 @@ class ConstFlow:
         self.cfg = cfg
         self.hook = hook
         self.keep = set(keep_names)
+        self._forgot: dict = {}
         init = {}
         for k, v in (params_consts or {}).items():
             if isinstance(v, tuple) and v and v[0] in ('c', 'truthy', 'falsy', 'notnone'):
@@ -359,11 +360,16 @@ class ConstFlow:
         return bool(self.ins.get(node_id))
 
     def _join(self, a, b):
+        tgt = getattr(self.cfg, '_join_target', None)
+        forgot = self._forgot.setdefault(tgt, set())
         u = a | b
+        if forgot:
+            u = frozenset(frozenset(x for x in d if x[0] not in forgot) for d in u)
         if len(u) <= self.MAX_DISJ:
             return u
         # too many disjuncts: forget variables one at a time (always sound -- fewer facts), each time the variable whose
-        # removal collapses the most disjuncts; the rule's own typestate ($-facts) is never forgotten
+        # removal collapses the most disjuncts; the rule's own typestate ($-facts) and the names a rule asked to keep are
+        # never forgotten.  The choice is sticky per node, which makes the widening monotone (termination).
         cur = set(u)
         while len(cur) > self.MAX_DISJ:
             names = set()
@@ -378,6 +384,7 @@ class ConstFlow:
                 proj = {frozenset(x for x in d if x[0] != nm) for d in cur}
                 if best_set is None or len(proj) < len(best_set):
                     best, best_set = nm, proj
+            forgot.add(best)
             cur = best_set
         return frozenset(cur)
 
